@@ -735,6 +735,10 @@ pub async fn run(ops: &str, out: &str, stats_path: Option<&str>, work: &str) {
                         let inst = &mut insts[i as usize];
                         let mut body = String::new();
                         let mut ok = true;
+                        let names: Vec<&str> = vals.split(';').filter(|t| !t.is_empty()).map(|t| t.split(':').next().unwrap_or("")).collect();
+                        if (1..names.len()).any(|i| names[..i].contains(&names[i])) {
+                            ok = false; // the same field twice is outside the op language
+                        }
                         for t in vals.split(';').filter(|t| !t.is_empty()) {
                             let p: Vec<&str> = t.split(':').collect();
                             if p.len() != 3 || crate::c15gen::SYSTEM_FIELD_NAMES.contains(&p[0]) {
